@@ -704,6 +704,7 @@ func (e *explorer) dfs(seq []int) {
 }
 
 func TestCheck(t *testing.T) {
+	vk.UseT(t)
 	r := vk.Start("C08", "model_checking", 150*time.Second, 25*time.Minute)
 	scs := scenarios()
 	if r.Replay != "" {
